@@ -133,6 +133,28 @@ def main():
         cleanup)]
     cleanup_order = [re.sub(r"[^\w:]", " ", c).split()[0] + (":" + c.split("::")[1].rstrip(")") if "::" in c else "") for c in cleanup_calls]
 
+    # ---- lifecycle guard / start sequence facts (C08, C04) --------------------------------
+    guard_new = fn_body(actor, "new", gi if gi >= 0 else 0) or ""
+    m = re.search(r"notify_on_cancel:\s*(true|false)", guard_new)
+    guard_initial_notify = (m.group(1) == "true") if m else None
+    ri = actor.find("impl<TActor> ActorRuntime")
+    start_body = fn_body(actor, "start", ri if ri >= 0 else 0) or ""
+    def pos(body, pat):
+        m = re.search(pat, body)
+        return m.start() if m else -1
+    p_pre = pos(start_body, r"run_with_signal\(pre_start\)")
+    p_link = pos(start_body, r"try_link\(")
+    p_mark = pos(start_body, r"lifecycle\.mark_running\(\)")
+    p_spawn = pos(start_body, r"spawn_named\(")
+    send_start_order_ok = (0 <= p_pre < p_link < p_mark < p_spawn)
+    send_start_awaits = len(re.findall(r"\.await", start_body.split("spawn_named(")[0])) if start_body else -1
+    inner_src = strip_comments(read(repo, "ractor/src/thread_local/inner.rs"))
+    lstart = fn_body(inner_src, "start") or ""
+    l_link = pos(lstart, r"try_link\(")
+    l_pre = pos(lstart, r"run_with_signal\(pre_start\)")
+    l_mark = pos(lstart, r"lifecycle\.mark_running\(\)")
+    local_start_order_ok = (0 <= l_link < l_pre < l_mark)
+
     # ---- statement order of ActorCell::set_status ----------------------------------------
     ss = fn_body(cell, "set_status") or ""
     ss_calls = re.findall(
@@ -220,6 +242,15 @@ def main():
     w(f"def setStatusCleanupElectedOnce : Bool := {str(ss_guard_once).lower()}")
     w(f"def setStatusNotifyElectedOnce : Bool := {str(ss_notify_once).lower()}")
     w(f"def terminateKillCondition : String := {lean_str(terminate_kill_cond)}")
+    w("")
+    w("/-- `ActorLifecycleGuard::new`: initial value of `notify_on_cancel` -/")
+    w(f"def guardInitialNotifyOnCancel : Option Bool := {'none' if guard_initial_notify is None else 'some ' + str(guard_initial_notify).lower()}")
+    w("/-- Send `start`: pre_start (under run_with_signal) < try_link < mark_running < spawn of the loop task -/")
+    w(f"def sendStartOrder : Bool := {str(send_start_order_ok).lower()}")
+    w("/-- number of `.await` in Send `start` before the loop task is spawned -/")
+    w(f"def sendStartAwaitPoints : Int := {send_start_awaits}")
+    w("/-- thread-local `start`: try_link < pre_start (under run_with_signal) < mark_running -/")
+    w(f"def localStartOrder : Bool := {str(local_start_order_ok).lower()}")
     w("")
     w(f"def admissionClosedIsTopBit : Bool := {str(closed_top).lower()}")
     w(f"def admissionMarkerIsNextBit : Bool := {str(marker_next).lower()}")
